@@ -74,7 +74,10 @@ Definition send_phase (c : chan) (x : item A) (ph : sphase) : option (chan * sre
       | None => None
       end
   | SDo2 =>
-      let '(old, c') := try_recv c in Some (c', SMore SDo3, dropped_action old)
+      match pol c with
+      | DropOldest => let '(old, c') := try_recv c in Some (c', SMore SDo3, dropped_action old)
+      | _ => Some (c, SMore SDo3, [])     (* unreachable: only DropOldest parks here *)
+      end
   | SDo3 =>
       match try_send c x with
       | Some c' => Some (c', SDone true, [])
